@@ -74,6 +74,13 @@ pub struct RunOutcome {
 }
 
 thread_local! {
+    // Spin breaker (see `spin_breaker`): task polls since the simulation last
+    // made observable progress, the breaker task's waker and its step.
+    static POLLS: std::cell::Cell<u64> = const { std::cell::Cell::new(0) };
+    static LAST_MARK: std::cell::Cell<(u64, u64)> = const { std::cell::Cell::new((0, 0)) };
+    static BREAKER_WAKER: RefCell<Option<std::task::Waker>> = const { RefCell::new(None) };
+    static BREAKER_SIGNAL: std::cell::Cell<bool> = const { std::cell::Cell::new(false) };
+    static BREAKER_STEP_MS: std::cell::Cell<u64> = const { std::cell::Cell::new(1) };
     static PANICS: RefCell<Vec<PanicInfo>> = const { RefCell::new(Vec::new()) };
     static IS_SIM_THREAD: std::cell::Cell<bool> = const { std::cell::Cell::new(false) };
 }
@@ -111,6 +118,55 @@ pub fn install_panic_hook() {
 
 pub fn foreign_panics() -> Vec<PanicInfo> {
     FOREIGN_PANICS.lock().unwrap().clone()
+}
+
+/// With a paused clock, virtual time only moves when the runtime is idle. A
+/// task that busy-waits (`yield_now()` in a loop, as the stream server's
+/// response queue does while it is full inside a transaction) would freeze
+/// time forever, although in reality time passes while it spins. The hook
+/// below counts task polls; when `SPIN_POLLS` polls pass without a single
+/// simulation event or draw, it wakes a helper task that advances the
+/// virtual clock (1 ms, doubling up to 1 s while the spin persists).
+const SPIN_POLLS: u64 = 1024;
+
+fn before_task_poll() {
+    let n = POLLS.with(|c| {
+        let n = c.get() + 1;
+        c.set(n);
+        n
+    });
+    if n % SPIN_POLLS != 0 {
+        return;
+    }
+    let mark = sim::progress_mark();
+    let last = LAST_MARK.with(|c| c.replace(mark));
+    if mark == last {
+        BREAKER_SIGNAL.with(|c| c.set(true));
+        if let Some(w) = BREAKER_WAKER.with(|w| w.borrow().clone()) {
+            w.wake();
+        }
+    } else {
+        BREAKER_STEP_MS.with(|c| c.set(1));
+    }
+}
+
+async fn spin_breaker() {
+    loop {
+        std::future::poll_fn(|cx| {
+            if BREAKER_SIGNAL.with(|c| c.replace(false)) {
+                std::task::Poll::Ready(())
+            } else {
+                BREAKER_WAKER.with(|w| *w.borrow_mut() = Some(cx.waker().clone()));
+                std::task::Poll::Pending
+            }
+        })
+        .await;
+        let step = BREAKER_STEP_MS.with(|c| c.get());
+        tokio::time::advance(Duration::from_millis(step)).await;
+        sim::sync_clock();
+        sim::stat("probe.spin_breaker_advanced_clock");
+        BREAKER_STEP_MS.with(|c| c.set((step * 2).min(1000)));
+    }
 }
 
 fn short_loc(loc: &str) -> String {
@@ -182,10 +238,16 @@ fn run_on_this_thread(scn: Arc<dyn Scenario>, tier: Tier, env_seed: u64, tape: T
             .start_paused(true)
             .rng_seed(tokio::runtime::RngSeed::from_bytes(&seed_bytes))
             .on_thread_unpark(sim::sync_clock)
+            .on_before_task_poll(|_| before_task_poll())
             .build()
             .expect("runtime");
+        POLLS.with(|c| c.set(0));
+        LAST_MARK.with(|c| c.set((0, 0)));
+        BREAKER_SIGNAL.with(|c| c.set(false));
+        BREAKER_STEP_MS.with(|c| c.set(1));
         rt.block_on(async {
             sim::init_clock();
+            tokio::spawn(spin_breaker());
             let fut = scn.run(tier);
             if tokio::time::timeout(max_vtime, fut).await.is_err() {
                 sim::stat("probe.vtime_cap_hit");
@@ -195,6 +257,7 @@ fn run_on_this_thread(scn: Arc<dyn Scenario>, tier: Tier, env_seed: u64, tape: T
         });
         // Dropping the runtime drops library tasks (and their sockets).
         drop(rt);
+        BREAKER_WAKER.with(|w| *w.borrow_mut() = None);
     }));
     let vtime_ns = sim::VNOW_NS.with(|c| c.get());
     let panics: Vec<PanicInfo> = PANICS.with(|p| std::mem::take(&mut *p.borrow_mut()));
